@@ -49,8 +49,9 @@ class DProgram(pyobj.Program):
 
     def mutated_attrs(self, cls, name, seen=()):
         """the translated methods may not assign attributes of self at all"""
-        owner, fn = self.find_method(cls, name)
-        for n in ast.walk(fn):
+        if name == '__init__':
+            return super().mutated_attrs(cls, name, seen)
+        for n in ast.walk(self.find_method(cls, name)[1] if not getattr(self, 'direct', None) else self.direct):
             if isinstance(n, ast.Attribute) and pyobj.is_self(n.value) and isinstance(n.ctx, (ast.Store, ast.Del)):
                 raise Untranslatable(f'{cls}.{name} assigns self.{n.attr}')
         return []
@@ -74,11 +75,15 @@ def inject(v, t):
 
 
 class DTr(MTr):
-    def __init__(self, prog, cls, owner, fn, argtypes, lean, iface):
+    def __init__(self, prog, cls, owner, fn, argtypes, lean, iface, ctor=None, ctor_struct=None):
         self.iface = iface
         self.facts = {}
         self.used_rec = []
-        super().__init__(prog, cls, owner, fn, argtypes, lean)
+        prog.direct = fn                      # the function node is given directly (it may be a renamed copy of a classmethod)
+        try:
+            super().__init__(prog, cls, owner, fn, argtypes, lean, ctor=ctor, ctor_struct=ctor_struct)
+        finally:
+            prog.direct = None
 
     # ------------------------------------------------------------------ narrowing
     def facts_of(self, test):
@@ -186,8 +191,8 @@ class DTr(MTr):
         op, left, right = e.ops[0], e.left, e.comparators[0]
         if isinstance(op, (ast.Is, ast.IsNot)) and isinstance(right, ast.Constant) and right.value is None:
             v, t = self.expr(left)
-            if not is_opt(t):
-                raise Untranslatable(f'`is None` on a {t}')
+            if not is_opt(t):                 # a value of a declared non-Optional type is never None
+                return ('False' if isinstance(op, ast.Is) else 'True'), PROP
             return (f'({v}.isNone = true)' if isinstance(op, ast.Is) else f'({v}.isSome = true)'), PROP
         if isinstance(op, (ast.In, ast.NotIn)):
             neg = isinstance(op, ast.NotIn)
@@ -589,16 +594,20 @@ class DTr(MTr):
 
     def translate(self):
         body = self.block(list(self.fn.body), self.end)
-        if not self.has_value_return or self.ret_type is None:
+        if self.ctor is not None:
+            rt = self.ctor_struct
+        elif not self.has_value_return or self.ret_type is None:
             raise Untranslatable(f'{self.fn.name}: no returned value')
-        rt = self.prog.lean_ty(self.ret_type)
+        else:
+            rt = self.prog.lean_ty(self.ret_type)
         ctx = self.iface.get('context', [])
         recs = [(f'rec_{n}', self.iface['rec'][n]) for n in self.iface.get('rec', {}) if n in self.used_rec]
-        ps = [f'({n} : {t})' for n, t in ctx]
+        ps = [f'({n} : {t})' for n, t in ctx if n != 'H' or self.uses_H]
         for ln, d in recs:
             fty = ' → '.join([tpar(self.prog.lean_ty(t)) for _, t in d['params']] + [f'Option {tpar(self.prog.lean_ty(d["ret"]))}'])
             ps.append(f'({ln} : {fty})')
-        ps += [f'({ln} : {self.prog.lean_ty(t)})' for k, _, ln, t in self.sig]
+        sig = [x for x in self.sig if x[0] != 'attr'] + sorted((x for x in self.sig if x[0] == 'attr'), key=lambda x: x[2])   # canonical order
+        ps += [f'({ln} : {self.prog.lean_ty(t)})' for k, _, ln, t in sig]
         doc = pybytes.doc_of(self.fn, f'{self.prog.src}: {self.owner}.{self.fn.name}')
         text = f'{doc}def {self.lean} {" ".join(ps)} : Option ({rt}) :=\n{indent(body)}\n'
         return dict(lean=self.lean, sig=self.sig, ret=self.ret_type, mutated=[], text=text, rec=[n for n, _ in recs])
